@@ -190,12 +190,15 @@ structure Node where
   noopTerm : Option Nat      -- `LeaderNoop{term}` pending in `pending_commit_actions`
 deriving DecidableEq, Repr, Inhabited
 
+/-- the `is_new_commit` result of `SharedState::update_voted_for` -/
+def isNewCommit (n : Node) (v : VF) : Bool :=
+  match n.vf with
+  | some old => v.committed && (old.id != v.id || old.term != v.term || !old.committed || n.leader == 0)
+  | none => v.committed
+
 /-- `SharedState::update_voted_for` → (state, is_new_commit) -/
 def updateVotedFor (n : Node) (v : VF) : Node × Bool :=
-  let isNew := match n.vf with
-    | some old => v.committed && (old.id != v.id || old.term != v.term || !old.committed || n.leader == 0)
-    | none => v.committed
-  ({ n with vf := some v }, isNew)
+  ({ n with vf := some v }, isNewCommit n v)
 
 /-- `Raft::notify_leader_change(leader_id, term)` with `send_if_modified` -/
 def notify (n : Node) (lid : Option Nat) (term : Nat) : Node :=
@@ -286,14 +289,14 @@ inductive AeOut where
   | higherTerm (t : Nat)     -- `AppendEntriesResponse::higher_term(my_term)`
 deriving DecidableEq, Repr
 
-/-- `handle_append_entries_request_workflow` + the `LeaderDiscovered` event it enqueues -/
+/-- `handle_append_entries_request_workflow` + the `LeaderDiscovered` event it enqueues:
+    `update_voted_for({leader, term, committed})` (its `is_new_commit` is computed from the old vote and the old
+    leader id), `set_current_leader`, term adoption, then `LeaderDiscovered` if it was a new commitment. -/
 def followerOnAE (n : Node) (t l : Nat) : Node × AeOut :=
   if n.term > t then (n, .higherTerm n.term)
   else
-    let (n1, isNew) := updateVotedFor n ⟨l, t, true⟩
-    let n2 := { n1 with leader := l }
-    let n3 := if n.term < t then { n2 with term := t } else n2
-    (if isNew then leaderDiscovered n3 l t else n3, .accepted)
+    let n3 : Node := { n with vf := some ⟨l, t, true⟩, leader := l, term := if n.term < t then t else n.term }
+    (if isNewCommit n ⟨l, t, true⟩ then leaderDiscovered n3 l t else n3, .accepted)
 
 def onAppendEntries (n : Node) (t l : Nat) : Node × AeOut :=
   match n.role with
